@@ -117,6 +117,7 @@ pub fn catalogue() -> Vec<Edge> {
         }
     }));
     e("c.overrides_with(o)".into(), Box::new(|c| c.arg_mut("c").unwrap().overrides.push("o".into())));
+    e("arg_required_else_help".into(), Box::new(|c| c.set(Setting::ArgRequiredElseHelp)));
     for x in ["a", "b"] {
         let xs = x.to_string();
         e(format!("{x}.hide"), Box::new(move |c| c.arg_mut(&xs).unwrap().hide = true));
